@@ -37,20 +37,32 @@ type varInfo struct {
 type fnCfg struct {
 	key     string
 	name    string
-	params  string            // explicit Coq binders (after cis)
-	optPar  map[string]bool   // Go parameters that may be nil
-	result  string            // Coq result type
-	optRes  bool              // result is option
-	partial bool              // body may panic: results wrapped in Ok, index failure = Err EPanic
-	elem    bool              // receiver slice indexed only by the int parameters: recv[i] is a_i
+	params  string          // unused (binders are derived from the Go signature)
+	optIdx  map[int]bool    // positions of Go parameters that may be nil
+	optPar  map[string]bool // (legacy) Go parameters that may be nil
+	result  string          // Coq result type
+	optRes  bool            // result is option
+	partial bool            // body may panic: results wrapped in Ok, index failure = Err EPanic
+	elem    bool            // receiver slice indexed only by the int parameters: recv[i] is a_i
 	noCis   bool
 }
 
 type T struct {
-	p   *tr.Pkg
-	cfg *fnCfg
-	env map[string]*varInfo
-	rcv string
+	p       *tr.Pkg
+	cfg     *fnCfg
+	env     map[string]*varInfo
+	rcv     string
+	recs    map[string]map[string]string // local struct values built from a composite literal: field -> term
+	idxElem map[string]string            // "X[i]" inside a normalised index loop -> element variable
+	g       *G
+}
+
+// G collects the helper functions translated on demand for one package.
+type G struct {
+	p     *tr.Pkg
+	done  map[string]bool
+	defs  []string
+	stack map[string]bool
 }
 
 var childFields = map[string]string{"ID": "(c_id %s)", "Version": "(c_version %s)", "ChangesetID": "(c_changeset %s)",
@@ -129,6 +141,11 @@ func (t *T) expr(e ast.Expr) (string, bool, error) {
 		if tv := t.p.Info.Types[e]; tv.Value != nil && tv.Value.Kind() == constant.Int {
 			return tr.CoqZ(tv.Value), false, nil
 		}
+		if x.Op == token.AND { // &us[i] : the element itself (read-only use)
+			if _, ok := x.X.(*ast.IndexExpr); ok {
+				return t.expr(x.X)
+			}
+		}
 		v, opt, err := t.expr(x.X)
 		if err != nil {
 			return "", false, err
@@ -189,6 +206,14 @@ func (t *T) expr(e ast.Expr) (string, bool, error) {
 				return "", false, t.errf(e, "unsupported package member %s", t.src(e))
 			}
 		}
+		if id, ok := x.X.(*ast.Ident); ok {
+			if rec, ok := t.recs[id.Name]; ok {
+				if v, ok := rec[x.Sel.Name]; ok {
+					return v, false, nil
+				}
+				return "", false, t.errf(e, "field %s of the local value was not set", x.Sel.Name)
+			}
+		}
 		v, opt, err := t.expr(x.X)
 		if err != nil {
 			return "", false, err
@@ -210,6 +235,9 @@ func (t *T) expr(e ast.Expr) (string, bool, error) {
 		}
 		return "", false, t.errf(e, "field %s is not modelled", t.src(e))
 	case *ast.IndexExpr:
+		if el, ok := t.idxElem[t.src(e)]; ok {
+			return el, false, nil
+		}
 		if t.cfg.elem {
 			if r, ok := x.X.(*ast.Ident); ok && r.Name == t.rcv {
 				if i, ok := x.Index.(*ast.Ident); ok {
@@ -229,6 +257,12 @@ func (t *T) expr(e ast.Expr) (string, bool, error) {
 			}
 			if c, ok := calls[id.Name]; ok {
 				return t.call(c, nil, x.Args)
+			}
+			// a small unexported helper of the same package: translated on demand
+			if c, err := t.g.helper(id.Name); err == nil {
+				return t.call(c, nil, x.Args)
+			} else if err != errNoHelper {
+				return "", false, err
 			}
 			return "", false, t.errf(e, "unsupported call %s", id.Name)
 		}
@@ -295,43 +329,66 @@ func (t *T) expr(e ast.Expr) (string, bool, error) {
 		}
 		return "", false, t.errf(e, "unsupported call %s", t.src(x.Fun))
 	case *ast.CompositeLit:
-		if named(t.p.Info.Types[e].Type) != "Update" {
-			return "", false, t.errf(e, "unsupported composite literal")
+		vals, err := t.literal(x)
+		if err != nil {
+			return "", false, err
 		}
-		vals := map[string]string{}
-		for _, el := range x.Elts {
-			kv, ok := el.(*ast.KeyValueExpr)
-			if !ok {
-				return "", false, t.errf(e, "positional composite literal")
-			}
-			v, opt, err := t.expr(kv.Value)
-			if err != nil {
-				return "", false, err
-			}
-			if opt {
-				return "", false, t.errf(e, "nil in composite literal")
-			}
-			vals[kv.Key.(*ast.Ident).Name] = v
-		}
-		out := "(mkUpdate"
-		for _, f := range [][2]string{{"Index", "0%nat"}, {"Version", "0"}, {"Timestamp", "zero_time"}, {"ChangesetID", "0"},
-			{"Lat", "0"}, {"Lon", "0"}, {"Reverse", "false"}} {
-			if v, ok := vals[f[0]]; ok {
-				if f[0] == "Index" {
-					return "", false, t.errf(e, "Index in composite literal")
-				}
-				out += " " + v
-				delete(vals, f[0])
-			} else {
-				out += " " + f[1]
-			}
-		}
-		if len(vals) != 0 {
-			return "", false, t.errf(e, "unmodelled fields in composite literal")
-		}
-		return out + ")", false, nil
+		v, err := t.mkUpdate(e, vals)
+		return v, false, err
 	}
 	return "", false, t.errf(e, "unsupported expression %T", e)
+}
+
+// literal reads osm.Update{F: E, ...} into a field map
+func (t *T) literal(x *ast.CompositeLit) (map[string]string, error) {
+	if named(t.p.Info.Types[x].Type) != "Update" {
+		return nil, t.errf(x, "unsupported composite literal")
+	}
+	vals := map[string]string{}
+	for _, el := range x.Elts {
+		kv, ok := el.(*ast.KeyValueExpr)
+		if !ok {
+			return nil, t.errf(x, "positional composite literal")
+		}
+		v, opt, err := t.expr(kv.Value)
+		if err != nil {
+			return nil, err
+		}
+		if opt {
+			return nil, t.errf(x, "nil in composite literal")
+		}
+		vals[kv.Key.(*ast.Ident).Name] = v
+	}
+	return vals, nil
+}
+
+// mkUpdate renders a field map in constructor order (canonical form of an osm.Update value)
+func (t *T) mkUpdate(e ast.Node, vals0 map[string]string) (string, error) {
+	vals := map[string]string{}
+	for k, v := range vals0 {
+		vals[k] = v
+	}
+	{
+		{
+			out := "(mkUpdate"
+			for _, f := range [][2]string{{"Index", "0%nat"}, {"Version", "0"}, {"Timestamp", "zero_time"}, {"ChangesetID", "0"},
+				{"Lat", "0"}, {"Lon", "0"}, {"Reverse", "false"}} {
+				if v, ok := vals[f[0]]; ok {
+					if f[0] == "Index" {
+						return "", t.errf(e, "Index in composite literal")
+					}
+					out += " " + v
+					delete(vals, f[0])
+				} else {
+					out += " " + f[1]
+				}
+			}
+			if len(vals) != 0 {
+				return "", t.errf(e, "unmodelled fields in composite literal")
+			}
+			return out + ")", nil
+		}
+	}
 }
 
 func (t *T) call(c [3]string, recv ast.Expr, args []ast.Expr) (string, bool, error) {
@@ -439,11 +496,58 @@ func (t *T) block(l []ast.Stmt, k kont) (string, error) {
 				}
 			}
 		}
+		if id, ok := s.Results[0].(*ast.Ident); ok {
+			if rec, ok := t.recs[id.Name]; ok {
+				v, err := t.mkUpdate(s, rec)
+				if err != nil {
+					return "", err
+				}
+				return t.ret(v, false), nil
+			}
+		}
 		v, opt, err := t.expr(s.Results[0])
 		if err != nil {
 			return "", err
 		}
 		return t.ret(v, opt), nil
+	case *ast.SwitchStmt:
+		// tagless switch = if / else if chain (cases in source order, default last)
+		if s.Tag != nil || s.Init != nil {
+			return "", t.errf(s, "switch with tag or init")
+		}
+		var chain ast.Stmt
+		var deflt []ast.Stmt
+		var clauses []*ast.CaseClause
+		for _, c := range s.Body.List {
+			cc := c.(*ast.CaseClause)
+			for _, b := range cc.Body {
+				if br, ok := b.(*ast.BranchStmt); ok && br.Tok == token.FALLTHROUGH {
+					return "", t.errf(s, "fallthrough")
+				}
+			}
+			if cc.List == nil {
+				deflt = cc.Body
+			} else {
+				clauses = append(clauses, cc)
+			}
+		}
+		if deflt != nil {
+			chain = &ast.BlockStmt{List: deflt}
+		}
+		for i := len(clauses) - 1; i >= 0; i-- {
+			cond := clauses[i].List[0]
+			for _, c := range clauses[i].List[1:] {
+				cond = &ast.BinaryExpr{X: cond, Op: token.LOR, Y: c}
+			}
+			chain = &ast.IfStmt{Cond: cond, Body: &ast.BlockStmt{List: clauses[i].Body}, Else: chain}
+		}
+		if chain == nil {
+			return rest()
+		}
+		if b, ok := chain.(*ast.BlockStmt); ok {
+			return t.block(append(append([]ast.Stmt{}, b.List...), l[1:]...), k)
+		}
+		return t.block(append([]ast.Stmt{chain}, l[1:]...), k)
 	case *ast.BranchStmt:
 		if s.Label == nil && s.Tok == token.BREAK && k.brk != "" {
 			return k.brk, nil
@@ -481,8 +585,48 @@ func (t *T) block(l []ast.Stmt, k kont) (string, error) {
 		r, err := rest()
 		return out + r, err
 	case *ast.AssignStmt:
+		if len(s.Lhs) > 1 && len(s.Lhs) == len(s.Rhs) && s.Tok == token.DEFINE {
+			// a, b := E1, E2  (the right-hand sides must not mention the new names)
+			var seq []ast.Stmt
+			for i := range s.Lhs {
+				for _, l2 := range s.Lhs {
+					if id, ok := l2.(*ast.Ident); ok && strings.Contains(" "+t.src(s.Rhs[i])+" ", " "+id.Name+" ") {
+						return "", t.errf(s, "parallel definition with dependent right-hand sides")
+					}
+				}
+				seq = append(seq, &ast.AssignStmt{Lhs: []ast.Expr{s.Lhs[i]}, Tok: token.DEFINE, Rhs: []ast.Expr{s.Rhs[i]}})
+			}
+			return t.block(append(seq, l[1:]...), k)
+		}
 		if len(s.Lhs) != 1 || len(s.Rhs) != 1 {
 			return "", t.errf(s, "unsupported assignment")
+		}
+		// u := osm.Update{...}  /  u.F = E  : a local struct value kept as a field map
+		if cl, ok := s.Rhs[0].(*ast.CompositeLit); ok && s.Tok == token.DEFINE {
+			if id, ok := s.Lhs[0].(*ast.Ident); ok {
+				vals, err := t.literal(cl)
+				if err != nil {
+					return "", err
+				}
+				t.recs[id.Name] = vals
+				return rest()
+			}
+		}
+		if sel, ok := s.Lhs[0].(*ast.SelectorExpr); ok && s.Tok == token.ASSIGN {
+			if id, ok := sel.X.(*ast.Ident); ok && t.recs[id.Name] != nil {
+				if k.brk != "" || k.cont != "" {
+					return "", t.errf(s, "field assignment inside a loop")
+				}
+				v, opt, err := t.expr(s.Rhs[0])
+				if err != nil {
+					return "", err
+				}
+				if opt {
+					return "", t.errf(s, "nil field value")
+				}
+				t.recs[id.Name][sel.Sel.Name] = v
+				return rest()
+			}
 		}
 		id, ok := s.Lhs[0].(*ast.Ident)
 		if !ok {
@@ -604,47 +748,170 @@ func (t *T) block(l []ast.Stmt, k kont) (string, error) {
 		t.env = e0
 		return fmt.Sprintf("if %s then\n  %s\n  else\n  %s", c, a, b), nil
 	case *ast.RangeStmt:
-		if s.Value == nil || s.Tok != token.DEFINE {
+		if s.Tok != token.DEFINE {
 			return "", t.errf(s, "unsupported range form")
 		}
-		if k, ok := s.Key.(*ast.Ident); s.Key != nil && (!ok || k.Name != "_") {
-			return "", t.errf(s, "range with index")
+		key, _ := s.Key.(*ast.Ident)
+		val, _ := s.Value.(*ast.Ident)
+		if s.Value != nil && val == nil || s.Key != nil && key == nil {
+			return "", t.errf(s, "unsupported range form")
 		}
-		xs, _, err := t.expr(s.X)
-		if err != nil {
-			return "", err
+		switch {
+		case val != nil && (key == nil || key.Name == "_"):
+			return t.loop(s.X, val.Name, "", s.Body, nil, k, rest)
+		case val == nil && key != nil && key.Name != "_":
+			// for i := range X { ... X[i] ... }
+			return t.loop(s.X, "", key.Name, s.Body, nil, k, rest)
 		}
-		vars := t.assigned(s.Body)
-		var names, tys []string
-		for _, v := range vars {
-			names = append(names, t.env[v].coq)
-			if t.env[v].opt {
-				tys = append(tys, "option child")
-			} else {
-				tys = append(tys, "Z")
-			}
+		return t.errfS(s, "range with both index and value")
+	case *ast.ForStmt:
+		// for i := 0; i < len(X) [&& C]; i++ { ... X[i] ... }   =   for _, el := range X { if !C { break }; ... }
+		as, ok := s.Init.(*ast.AssignStmt)
+		if !ok || as.Tok != token.DEFINE || len(as.Lhs) != 1 || t.src(as.Rhs[0]) != "0" {
+			return t.errfS(s, "unsupported for loop (init)")
 		}
-		tys = append(tys, "bool")
-		st := func(done string) string { return "(" + strings.Join(append(append([]string{}, names...), done), ", ") + ")" }
-		el := s.Value.(*ast.Ident).Name
-		e0 := map[string]*varInfo{}
-		for k2, v := range t.env {
-			e0[k2] = v
+		iv := as.Lhs[0].(*ast.Ident).Name
+		if inc, ok := s.Post.(*ast.IncDecStmt); !ok || inc.Tok != token.INC || t.src(inc.X) != iv {
+			return t.errfS(s, "unsupported for loop (post)")
 		}
-		t.env[el] = &varInfo{coq: "v_" + el}
-		body, err := t.block(s.Body.List, kont{fall: func() (string, error) { return st("false"), nil }, brk: st("true"), cont: st("false")})
-		if err != nil {
-			return "", err
+		cond := s.Cond
+		var extra ast.Expr
+		if b, ok := cond.(*ast.BinaryExpr); ok && b.Op == token.LAND {
+			cond, extra = b.X, b.Y
 		}
-		t.env = e0
-		r, err := rest()
-		if err != nil {
-			return "", err
+		b, ok := cond.(*ast.BinaryExpr)
+		if !ok || b.Op != token.LSS || t.src(b.X) != iv {
+			return t.errfS(s, "unsupported for loop (condition)")
 		}
-		return fmt.Sprintf("let '%s := fold_left (fun (st_ : %s) (v_%s : child) => let '%s := st_ in if done_ then %s else\n  %s) %s %s in\n  %s",
-			st("_"), strings.Join(tys, " * "), el, st("done_"), st("true"), body, xs, st("false"), r), nil
+		call, ok := b.Y.(*ast.CallExpr)
+		if !ok || t.src(call.Fun) != "len" || len(call.Args) != 1 {
+			return t.errfS(s, "unsupported for loop (bound)")
+		}
+		return t.loop(call.Args[0], "", iv, s.Body, extra, k, rest)
 	}
 	return "", t.errf(l[0], "unsupported statement %T", l[0])
+}
+
+func (t *T) errfS(n ast.Node, f string, a ...interface{}) (string, error) {
+	return "", t.errf(n, f, a...)
+}
+
+// loop renders a loop over the elements of xsE as a fold_left over (assigned variables, done).
+// elName: the Go element variable (range with value); idxName: the Go index variable of an index
+// loop, in which X[idx] denotes the element; guard: an extra loop condition (false = break).
+func (t *T) loop(xsE ast.Expr, elName, idxName string, body *ast.BlockStmt, guard ast.Expr, k kont, rest func() (string, error)) (string, error) {
+	xs, _, err := t.expr(xsE)
+	if err != nil {
+		return "", err
+	}
+	vars := t.assigned(body)
+	var names, tys []string
+	for _, v := range vars {
+		names = append(names, t.env[v].coq)
+		if t.env[v].opt {
+			tys = append(tys, "option child")
+		} else {
+			tys = append(tys, "Z")
+		}
+	}
+	tys = append(tys, "bool")
+	st := func(done string) string {
+		return "(" + strings.Join(append(append([]string{}, names...), done), ", ") + ")"
+	}
+	e0 := map[string]*varInfo{}
+	for k2, v := range t.env {
+		e0[k2] = v
+	}
+	el := "v_el_"
+	stmts := body.List
+	if elName != "" {
+		el = "v_" + elName
+		t.env[elName] = &varInfo{coq: el}
+	} else {
+		oldIdx := t.idxElem
+		t.idxElem = map[string]string{}
+		for k2, v := range oldIdx {
+			t.idxElem[k2] = v
+		}
+		t.idxElem[t.src(xsE)+"["+idxName+"]"] = el
+		defer func() { t.idxElem = oldIdx }()
+		// the index itself must not be used otherwise
+		bad := false
+		ast.Inspect(body, func(n ast.Node) bool {
+			if ix, ok := n.(*ast.IndexExpr); ok && t.src(ix.X) == t.src(xsE) && t.src(ix.Index) == idxName {
+				return false
+			}
+			if id, ok := n.(*ast.Ident); ok && id.Name == idxName {
+				bad = true
+			}
+			return true
+		})
+		if bad {
+			return "", t.errf(body, "loop index %s used other than as %s[%s]", idxName, t.src(xsE), idxName)
+		}
+	}
+	if guard != nil {
+		stmts = append([]ast.Stmt{&ast.IfStmt{Cond: &ast.UnaryExpr{Op: token.NOT, X: &ast.ParenExpr{X: guard}},
+			Body: &ast.BlockStmt{List: []ast.Stmt{&ast.BranchStmt{Tok: token.BREAK}}}}}, stmts...)
+	}
+	bodyT, err := t.block(stmts, kont{fall: func() (string, error) { return st("false"), nil }, brk: st("true"), cont: st("false")})
+	if err != nil {
+		return "", err
+	}
+	t.env = e0
+	r, err := rest()
+	if err != nil {
+		return "", err
+	}
+	return fmt.Sprintf("let '%s := fold_left (fun (st_ : %s) (%s : child) => let '%s := st_ in if done_ then %s else\n  %s) %s %s in\n  %s",
+		st("_"), strings.Join(tys, " * "), el, st("done_"), st("true"), bodyT, xs, st("false"), r), nil
+}
+
+var errNoHelper = fmt.Errorf("not a helper")
+
+// helper translates an unexported function of the package on demand (once) and returns its call entry.
+func (g *G) helper(name string) ([3]string, error) {
+	fd := g.p.FuncDecls()[name]
+	if fd == nil || fd.Body == nil || fd.Recv != nil || ast.IsExported(name) {
+		return [3]string{}, errNoHelper
+	}
+	coq := "gen_h_" + name
+	entry := [3]string{coq, "cis", ""}
+	if fd.Type.Results == nil || len(fd.Type.Results.List) != 1 {
+		return entry, fmt.Errorf("helper %s: unsupported result list", name)
+	}
+	rt := g.p.Info.Types[fd.Type.Results.List[0].Type].Type
+	cfg := &fnCfg{key: name, name: coq}
+	switch {
+	case named(rt) == "Child":
+		cfg.result, cfg.optRes = "option child", true
+		entry[2] = "opt"
+	case isTime(rt) || named(rt) == "Duration":
+		cfg.result = "Z"
+	default:
+		if b, ok := rt.Underlying().(*types.Basic); ok && b.Info()&types.IsBoolean != 0 {
+			cfg.result = "bool"
+		} else if ok && b.Info()&types.IsInteger != 0 {
+			cfg.result = "Z"
+		} else {
+			return entry, fmt.Errorf("helper %s: unsupported result type %s", name, rt)
+		}
+	}
+	if g.done[name] {
+		return entry, nil
+	}
+	if g.stack[name] {
+		return entry, fmt.Errorf("helper %s: recursive", name)
+	}
+	g.stack[name] = true
+	def, err := translateIn(g, cfg)
+	delete(g.stack, name)
+	if err != nil {
+		return entry, err
+	}
+	g.done[name] = true
+	g.defs = append(g.defs, def+"#[global] Hint Unfold "+coq+" : genhelpers.\n")
+	return entry, nil
 }
 
 func (t *T) resetEnv(e0 map[string]*varInfo, refined string) {
@@ -688,18 +955,81 @@ func (t *T) assigned(b *ast.BlockStmt) []string {
 }
 
 func translate(p *tr.Pkg, cfg *fnCfg) (string, error) {
+	g := &G{p: p, done: map[string]bool{}, stack: map[string]bool{}}
+	def, err := translateIn(g, cfg)
+	if err != nil {
+		return "", err
+	}
+	return strings.Join(g.defs, "\n") + def, nil
+}
+
+// coqTypeOf gives the Coq type carrying a Go parameter
+func coqTypeOf(ty types.Type, opt bool) (string, error) {
+	o := func(s string) string {
+		if opt {
+			return "option " + s
+		}
+		return s
+	}
+	switch named(ty) {
+	case "Child":
+		return o("child"), nil
+	case "Parent":
+		return o("parent"), nil
+	case "Options":
+		return "opts", nil
+	case "ChildList":
+		return "list child", nil
+	}
+	if isTime(ty) {
+		return "Z", nil
+	}
+	if b, ok := ty.Underlying().(*types.Basic); ok {
+		if b.Info()&types.IsInteger != 0 {
+			return "Z", nil
+		}
+		if b.Info()&types.IsBoolean != 0 {
+			return "bool", nil
+		}
+	}
+	return "", fmt.Errorf("no Coq type for parameter type %s", ty)
+}
+
+func translateIn(g *G, cfg *fnCfg) (string, error) {
+	p := g.p
 	fd := p.FuncDecls()[cfg.key]
 	if fd == nil {
 		return "", fmt.Errorf("%s: not found in source", cfg.key)
 	}
-	t := &T{p: p, cfg: cfg, env: map[string]*varInfo{}}
+	t := &T{p: p, cfg: cfg, env: map[string]*varInfo{}, recs: map[string]map[string]string{}, idxElem: map[string]string{}, g: g}
+	var binders []string
 	if fd.Recv != nil && len(fd.Recv.List) == 1 && len(fd.Recv.List[0].Names) == 1 {
 		t.rcv = fd.Recv.List[0].Names[0].Name
 		t.env[t.rcv] = &varInfo{coq: "v_" + t.rcv}
+		if !cfg.elem {
+			ct, err := coqTypeOf(p.Info.Defs[fd.Recv.List[0].Names[0]].Type(), false)
+			if err != nil {
+				return "", fmt.Errorf("%s: %v", cfg.key, err)
+			}
+			binders = append(binders, fmt.Sprintf("(v_%s : %s)", t.rcv, ct))
+		}
 	}
+	pos := 0
 	for _, f := range fd.Type.Params.List {
 		for _, n := range f.Names {
-			t.env[n.Name] = &varInfo{coq: "v_" + n.Name, opt: cfg.optPar[n.Name]}
+			opt := cfg.optIdx[pos]
+			pos++
+			if cfg.elem {
+				// the int parameters of Less(i, j) denote the elements recv[i], recv[j]
+				binders = append(binders, fmt.Sprintf("(a_%s : update)", n.Name))
+				continue
+			}
+			t.env[n.Name] = &varInfo{coq: "v_" + n.Name, opt: opt}
+			ct, err := coqTypeOf(p.Info.Defs[n].Type(), opt)
+			if err != nil {
+				return "", fmt.Errorf("%s: %v", cfg.key, err)
+			}
+			binders = append(binders, fmt.Sprintf("(v_%s : %s)", n.Name, ct))
 		}
 	}
 	body, err := t.block(fd.Body.List, kont{fall: func() (string, error) { return "", fmt.Errorf("%s: control falls off the end", cfg.key) }})
@@ -710,12 +1040,14 @@ func translate(p *tr.Pkg, cfg *fnCfg) (string, error) {
 	if cfg.noCis {
 		cis = ""
 	}
-	return fmt.Sprintf("(* %s *)\nDefinition %s %s%s : %s :=\n  %s.\n", cfg.key, cfg.name, cis, cfg.params, cfg.result, body), nil
+	return fmt.Sprintf("(* %s *)\nDefinition %s %s%s : %s :=\n  %s.\n", cfg.key, cfg.name, cis, strings.Join(binders, " "), cfg.result, body), nil
 }
 
 // setChild translates parentWay.SetChild / parentRelation.SetChild into a function on one reference:
-//   if child == nil { return }            -> the caller's None case (set_child)
-//   X[idx].F = child.G                    -> field F of the new reference is (c_g c)
+//
+//	if child == nil { return }            -> the caller's None case (set_child)
+//	X[idx].F = child.G                    -> field F of the new reference is (c_g c)
+//
 // Statements that only maintain the relation's way cache (r.ways, used for the multipolygon
 // orientation, property C16) are skipped and listed in a comment.
 func setChild(p *tr.Pkg, key, name string) (string, error) {
@@ -861,7 +1193,7 @@ func main() {
 	var text bytes.Buffer
 	text.WriteString("(* GENERATED by /verif/translator (cmd/annotate) from /repo — do not edit. *)\n" +
 		"From Coq Require Import ZArith List Bool.\nFrom Verif Require Import Annotate.Model.\nImport ListNotations.\nOpen Scope Z_scope.\n\n" +
-		"Definition get_at {A} (l : list A) (i : Z) : option A := if i <? 0 then None else nth_error l (Z.to_nat i).\n\n")
+		"Definition get_at {A} (l : list A) (i : Z) : option A := if i <? 0 then None else nth_error l (Z.to_nat i).\n\nCreate HintDb genhelpers.\n\n")
 	failed := 0
 	emit := func(dir, path string, fns []*fnCfg) *tr.Pkg {
 		p, err := tr.Load(filepath.Join(repo, dir), path)
@@ -909,7 +1241,7 @@ func main() {
 		{key: "ChildList.VersionBefore", name: "gen_version_before", params: "(v_cl : list child) (v_end : Z)", result: "option child", optRes: true},
 		{key: "nextVersionIndex", name: "gen_next_version_index",
 			params: "(v_current : option child) (v_child : list child) (v_nextParent : option parent) (v_opts : opts)",
-			optPar: map[string]bool{"current": true, "nextParent": true}, result: "res Z", partial: true},
+			optIdx: map[int]bool{0: true, 2: true}, result: "res Z", partial: true},
 	})
 	ann, err := tr.Load(filepath.Join(repo, "annotate"), "github.com/paulmach/osm/annotate")
 	if err != nil {
